@@ -7,7 +7,9 @@ ID = 'C06'
 MODULES = ['OFModel.Zmq.Receiver', 'OFModel.Zmq.Sender', 'OFModel.Zmq.Pair', 'OFModel.Zmq.Net', 'OFModel.Gen.Facts']
 PROP_FILES = ['C06', 'PairRecv', 'PairSend', 'C06Live', 'PairFair', 'C06Fair', 'C06NetEdge', 'C06NetMeasure', 'C06Net',
               'C06StarEdge', 'C06StarInv', 'C06StarMeasure', 'C06StarSem', 'C06Star',
-              'C06ChainRestartInv', 'C06ChainRestart', 'C06ChainRestartUp']
+              'C06ChainRestartInv', 'C06ChainRestart', 'C06ChainRestartUp',
+              'C06ChainRecoverEdge', 'C06ChainRecoverUp', 'C06ChainRecoverDown', 'C06ChainRecover', 'C06ChainRecoverPass',
+              'C06TreeMeasure', 'C06TreeInv', 'C06TreeSem', 'C06Tree']
 LEVEL = 'proof'
 RULE = ('(1) closed pair (OFProps/C06Live.lean): a REAL ZMQSender and a REAL ZMQReceiver wired through fakezmq run random schedules of send | recv | restart consumer | restart publisher '
         '(graceful or crash, anywhere), compared event by event with the Lean model OF.Pair (messages published, requests pushed, sets returned, client table, ids, buffers, channel lengths), '
@@ -18,7 +20,8 @@ RULE = ('(1) closed pair (OFProps/C06Live.lean): a REAL ZMQSender and a REAL ZMQ
         'Oracle (exploration): within 15 virtual seconds after the fault ends every live sink has been handed a new frame, and sequence numbers stay strictly increasing at every node. '
         '(3) chain of 2-6 REAL MQ objects on fakezmq (OFProps/C06Net.lean, harness/ofverif/netstall.py): random restart-free reachable prefix, then either the explicit schedule of C06_net_chain_progress (send of the sink, then pull: 5 (L-1) + 2 events, 1-3 repetitions, any clock readings) or 5 (L-1) + 3 random FAIR rounds (every node recv and send at least once per round, random order / repetitions / clock steps up to beyond the connection time-out: C06_net_chain_fair_heals); oracle net-chain-no-progress: the real sink recv returned fewer new frame sets than proved; the same schedule through OF.Net (net.run), compared event by event. '
         '(4) tee of 1-5 REAL MQ objects subscribed to one source (OFProps/C06Star.lean, harness/ofverif/netstall.py gen_star_trial / run_star): random restart-free reachable prefix, then the explicit schedule of C06_net_star_progress (6 b + 3 events, 1-3 repetitions, any clock readings) | 8 or 16 random FAIR rounds of all nodes at any clock steps (C06_net_star_fair_heals) | a random set of consumers falls SILENT and the explicit healing schedule of C06_net_star_heals_explicit runs (recv 0, send 0 now, then the progress schedule of the live consumers one connection time-out after the later of now and every t_last in the REAL client table) | the same with a random first phase of live events around recv 0 ... send 0 and then 8 / 16 random fair rounds of the LIVE nodes beyond that clock reading (C06_net_star_heals_after_silence_flush); oracle net-star-no-progress: the real recv of a LIVE consumer returned fewer new frame sets than proved; the same events through OF.Net (net.run), compared event by event. '
-        '(5) chain source 0 -> relay 1 -> sink 2 of REAL MQ objects WITH RESTARTS in the history (OFProps/C06ChainRestart.lean, harness/ofverif/netstall.py gen_chainrestart_trial / run_chainrestart): random reachable prefix of recv i | send i @t | restart i graceful or crash (any node, 0-4 restarts anywhere, events between them, clock gaps up to beyond the connection time-out), then the healing schedule heal3 n0 n1 t1 t2 t3 (2 n0 + 24 n1 + 115 events) computed from the REAL state after the prefix: n0 / n1 = requests queued at the real PULL socket of node 0 / node 1, t1 = now, t2 / t3 = one connection time-out beyond every t_last in the real client table of node 0 / node 1; oracle net-chain-not-recovered: the real sink recv returned no frame set above its prev_id and above everything its current incarnation returned; oracle net-chain-order: ids handed to the relay / the sink strictly increase per incarnation over the whole run; the whole run through OF.Net (net.run), compared event by event (incl. n0 / n1 = pub.queues length of the model); information only: the same schedule without the waiting phases (t2 = t3 = t1) after a crash of the relay or the sink - how often the sink stays unserved.  '
+        '(5) chain source 0 -> relay 1 -> sink 2 of REAL MQ objects WITH RESTARTS in the history (OFProps/C06ChainRestart.lean; the healing schedule of theorems C06_net_chain3_recovers / C06_net_chain3_recovers_pass, OFProps/C06ChainRecover.lean / C06ChainRecoverPass.lean; harness/ofverif/netstall.py gen_chainrestart_trial / run_chainrestart): random reachable prefix of recv i | send i @t | restart i graceful or crash (any node, 0-4 restarts anywhere, events between them, clock gaps up to beyond the connection time-out), then the healing schedule heal3 n0 n1 t1 t2 t3 (2 n0 + 24 n1 + 115 events) computed from the REAL state after the prefix: n0 / n1 = requests queued at the real PULL socket of node 0 / node 1, t1 = now, t2 / t3 = one connection time-out beyond every t_last in the real client table of node 0 / node 1; oracle net-chain-not-recovered: the real sink recv returned no frame set above its prev_id and above everything its current incarnation returned; oracle net-chain-order: ids handed to the relay / the sink strictly increase per incarnation over the whole run; the whole run through OF.Net (net.run), compared event by event (incl. n0 / n1 = pub.queues length of the model); information only: the same schedule without the waiting phases (t2 = t3 = t1) after a crash of the relay or the sink - how often the sink stays unserved.  '
+        '(6) general TREES of 3-6 REAL MQ objects on fakezmq (OFProps/C06Tree.lean, harness/ofverif/netstall.py gen_livetree_trial / run_livetree): random parent list (node i subscribed to one earlier node; relays with several consumers, relays below relays), inner nodes never answer None, leaves arbitrary; random restart-free reachable prefix, then treeRounds(D) = 4 D^2 + 3 D + 1 (or twice as many) random FAIR rounds of all nodes at any clock steps (C06_net_tree_fair_heals / _heals_throughput) | round-robin treeRounds(D) times at one clock reading (C06_net_tree_progress) | 1-2 LEAVES fall silent (every inner node keeps a live consumer), rounds of the live nodes flush what they had queued at the REAL PULL socket of their parents, then treeRounds(D) random fair rounds of the LIVE nodes beyond t_last + time-out read off the REAL client tables of their parents (C06_net_tree_heals_after_silence); oracle net-tree-no-progress: the real recv of a live node (relay or leaf) returned fewer new frame sets than proved; the same events through OF.Net (net.run), compared event by event. '
         'Plus the adversarial feeds of C01/C02 for the component tie.  non-trivial = a run in which the victim was hit while frames were flowing / a pair schedule with at least one restart / a chain prefix with at least one restart')
 ASSUMPTIONS = ['partial by nature: proved are the schedule-independent unstick lemmas (re-request, handshake, fast-forward, newer-id adoption, eviction, required-output wait) and, for the closed pair of one publisher '
                'and one synchronised consumer, "no reachable deadlock": from every reachable state (any history, any restarts) an explicit continuation delivers a new frame (C06_pair_recovers), '
@@ -27,7 +30,9 @@ ASSUMPTIONS = ['partial by nature: proved are the schedule-independent unstick l
                '(the theorem assumes nothing about channel contents, so it also covers loss and stale traffic; it does assume the continuation itself is delivered)',
                'chains of any length (C06_net_chain_progress / _fair_heals / _round_robin / _throughput): no restart-free reachable deadlock, a new frame set at the sink within 5 (L-1) + 3 fair rounds, hypotheses: no restarts in the history or the continuation, the source always has a next frame and every relay forwards every set (FwdAll), non-empty topic names; immediate loss-free delivery',
                'tees (C06_net_star_progress / _fair_heals / _heals_after_silence(_flush) / _heals_explicit / _heals_throughput / _all_silent_blocks): source with b >= 1 sink consumers, no restart-free reachable deadlock, a new frame set at EVERY consumer within 8 fair rounds at ANY clock readings (bound independent of b, not tight), and after any set of consumers has fallen silent: every live consumer is served again once the clock has passed t_last + ZMQ_CONN_TIMEOUT of the silent ones (after one drain of the requests they left); hypotheses: no restarts, dict-like results (ProcNames), the source always has a next frame (SrcAll), immediate loss-free delivery',
-               'liveness of joins / trees with relays that have several consumers / chains with restarts / "within a bounded time" in seconds is explored on MQNet, not proved',
+               '3-node chain WITH restarts in the history (C06_net_chain3_recovers / _recovers_at / _recovers_from_shape / _relay_resupplied / _keeps_recovering, OFProps/C06ChainRecover.lean; C06_net_chain3_recovers_pass / _pass_invariant, OFProps/C06ChainRecoverPass.lean): no reachable deadlock - from every reachable state (any schedule, restarts of any node, graceful or crash) the explicit schedule healOf st t1 (2 n0 + 24 n1 + 115 events, two connection time-outs; over-estimated flush counts and later clock readings are harmless) hands the sink a new frame set; hypotheses: the source answers every call with a one-frame main result and the relay answers every one-frame main set with one (FwdPass: pass, lone-frame and callable relays - the behaviours the tie runs; FwdMain relays from the shape invariant alone), immediate loss-free delivery; the fair-schedule form, multi-topic results and chains longer than 3 with restarts are not proved',
+               'general trees (C06_net_tree_fair_heals(_at/_returns) / _progress / _heals_after_silence(_at) / _heals_throughput): any treeTopo par (relays with several consumers, any depth), no restart-free reachable deadlock, a new frame set at EVERY node within treeRounds(D) = 4 D^2 + 3 D + 1 fair rounds at ANY clock readings (D = depth; independent of the number of nodes; not tight: at most 3 D + 2 rounds observed), and after any set of LEAVES has fallen silent (nothing of theirs queued, every inner node keeps a live consumer, clock beyond their time-out); hypotheses: no restarts, dict-like results (ProcNames), every node that has a consumer never answers None (FwdTree), immediate loss-free delivery',
+               'liveness of joins / chains longer than 3 with restarts / silent inner nodes of trees / "within a bounded time" in seconds is explored on MQNet, not proved',
                'MQNet drops requests sent to a dead peer (libzmq would queue them up to the HWM and deliver them after the reconnect)']
 TRUSTED = ['MQNet event loop and fault injection (harness/ofverif/mqnet.py)', 'fake pyzmq surface harness/ofverif/fakezmq.py (in-process sockets, virtual clock) used by the pair rig']
 
@@ -276,6 +281,48 @@ def net_star_campaign(ctx, n):
     res.extra['net_star_fair_rounds_until_every_live_consumer_served(exploration; proved bound 8)'] = dict(sorted(rounds.items()))
 
 
+def net_tree_campaign(ctx, n):
+    """general trees of 3-6 REAL MQ objects on fakezmq (OFProps/C06Tree.lean): random restart-free reachable prefix, then one of the three kinds of continuation of
+    netstall.gen_livetree_trial (computed from the real state: silent leaves flushed, the healing clock reading read off the real client tables); vs OF.Net event by event"""
+    import random
+    logging.disable(logging.CRITICAL)
+    res = ctx.result
+    rng = random.Random(ctx.rng.randrange(10**9))        # own stream: the campaigns that follow keep theirs
+    trials = [c['trial'] for c in ctx.corpus if c.get('feed') == 'net-tree']
+    if ctx.replay: trials = [ctx.replay['case']['trial']] if ctx.replay.get('case', {}).get('feed') == 'net-tree' else []; n = 0
+    for _ in range(n): trials.append(netstall.gen_livetree_trial(rng))
+    runs = [netstall.run_livetree(t) for t in trials]
+    model = ctx.driver.batch([netstall.model_request(t) for t in trials]) if ctx.driver else None
+    hist, rounds = {}, {}
+    for idx, (t, (obs, info)) in enumerate(zip(trials, runs)):
+        par = netstall.tree_par(t['topo'])
+        nn = len(par) + 1
+        D = max(netstall.tree_depths(par))
+        live = [j for j in range(1, nn) if j not in t['dead']]
+        moved = sum(1 for j in live if j in info['prev0'] and any(x > info['prev0'][j] for x in info['returned'][j]))
+        res.note({'feed': 'net-tree', 'par': par, 'depth': D, 'silent': t['dead'], 'mode': t['mode'], 'prefix_events': len(t['prefix']), 'continuation_events': len(t['stall']),
+                  'live_nodes_served': moved}, nontrivial=False)
+        if moved: res.nontrivial.add(f"net-tree:{ctx.seed}:{idx}:{len(t['prefix'])}:{len(t['stall'])}")
+        k = f"{t['mode']}:depth={D}:nodes={nn}:silent={len(t['dead'])}:served={moved}/{len(live)}"; hist[k] = hist.get(k, 0) + 1
+        if info.get('rounds_needed') is not None:
+            kk = f"depth={D}:{info['rounds_needed']}"; rounds[kk] = rounds.get(kk, 0) + 1
+        for key, what in netstall.livetree_oracle(t, info)[:1]:
+            res.violations.append(Violation(key, what, {'feed': 'net-tree', 'trial': t}))
+        if model is not None:
+            r = model[idx]
+            if 'err' in r:
+                res.disagreements.append({'point': 'net.run', 'case': {'feed': 'net-tree', 'trial': t}, 'impl': None, 'model': r}); continue
+            d = netstall.compare(t, obs, r)
+            if d is not None:
+                ci, a, b2 = d
+                evs = t['prefix'] + t['stall']
+                res.disagreements.append({'point': f'net-tree event #{ci} {evs[ci] if ci < len(evs) else None}: real MQ objects vs OF.Net.step', 'case': {'feed': 'net-tree', 'trial': t}, 'impl': a, 'model': b2})
+            else:
+                res.traces_validated += 1
+    res.extra['net_tree'] = dict(sorted(hist.items()))
+    res.extra['net_tree_fair_rounds_until_every_live_node_served(exploration; proved bound 4 D^2 + 3 D + 1)'] = dict(sorted(rounds.items()))
+
+
 # restarts placed in the first trials of the chain-restart campaign: every victim x kind alone, then pairs of different nodes (events in between are random)
 CHAINRESTART_COVER = [[(0, True)], [(0, False)], [(1, True)], [(1, False)], [(2, True)], [(2, False)],
                       [(2, False), (1, False)], [(1, False), (2, False)], [(0, False), (1, True)], [(1, True), (2, True)], [(0, True), (2, False)], [(2, True), (0, False)],
@@ -394,3 +441,4 @@ def run(ctx):
     net_live_campaign(ctx, 1500 if ctx.thorough else (400 if ctx.escalate else 120))     # last: the random stream of the campaigns above is unchanged
     net_star_campaign(ctx, 1200 if ctx.thorough else (300 if ctx.escalate else 60))
     net_chainrestart_campaign(ctx, 1500 if ctx.thorough else (300 if ctx.escalate else 80))
+    net_tree_campaign(ctx, 1500 if ctx.thorough else (300 if ctx.escalate else 50))
